@@ -366,6 +366,8 @@ class Origins:
                         o |= self.of(a, fn, sc)
                     out |= {OBJ} if c.self_cls is not None and c.self_cls.name in ("BIP32Path",) else self._mix(o)
                 else:
+                    # (what comes back through a callable taken from a table is invisible to this analysis: undecided, not "unknown origin")
+                    self.P._refuse_computed_callees(c.fn)
                     out |= self.ret.get(c.fn.qualname, set())
             return out or {K}
         # method call on a value: result derives from receiver and arguments
